@@ -280,7 +280,10 @@ class FlowIRExperimentConfiguration:
 
         system_vars = system_vars or {}
         config_patches = config_patches or {}
-        variable_files = list(set(variable_files or []))
+        # VV: The files are layered in the order given (last one wins): drop duplicate paths without disturbing the
+        # order; a path that is listed more than once is layered at its last position
+        variable_files = list(variable_files or [])
+        variable_files = [path for idx, path in enumerate(variable_files) if path not in variable_files[idx + 1:]]
 
         out_errors = []
         self.file_format = file_format
@@ -481,7 +484,10 @@ class FlowIRExperimentConfiguration:
 
         systemvars = systemvars or {}
         config_patches = config_patches or {}
-        variable_files = list(set(variable_files or []))
+        # VV: The files are layered in the order given (last one wins): drop duplicate paths without disturbing the
+        # order; a path that is listed more than once is layered at its last position
+        variable_files = list(variable_files or [])
+        variable_files = [path for idx, path in enumerate(variable_files) if path not in variable_files[idx + 1:]]
 
         out_errors = []
 
